@@ -75,6 +75,27 @@ def verifier_for(spec):
     raise ValueError(spec)
 
 
+_CERT_VER = {}
+
+
+def verifier_from_cert(spec):
+    """the verifier of the same key built from its certificate - issued by another key, as certificates usually are - and one
+    built from a certificate of a different key under the same name (must reject)"""
+    if spec not in _CERT_VER:
+        import datetime
+        from ndn.app_support import security_v2 as sv2
+        cls, key_name, pub = {'rsa': (RsaChecker, '/k/rsa/KEY/1', 'rsa2048_0'), 'ecdsa': (EccChecker, '/k/ec/KEY/1', 'ec256_0'),
+                              'ed': (Ed25519Checker, '/k/ed/KEY/1', 'ed25519_0')}[spec]
+        other = {'rsa': 'rsa2048_1', 'ecdsa': 'ec256_1', 'ed': 'ed25519_1'}[spec]
+        with owned_random(('c02-from-cert', spec)):
+            issuer = c01.make_signer('ecdsa:384', False)
+            issuer.key_locator_name = '/issuer/of/certificates/KEY/9'
+            _, cert = sv2.derive_cert(key_name, 'iss', pub_der(pub), issuer, datetime.datetime(2024, 2, 29, 12, 0, 0), 3600)
+            _, wrong = sv2.derive_cert(key_name, 'iss', pub_der(other), issuer, datetime.datetime(2024, 2, 29, 12, 0, 0), 3600)
+        _CERT_VER[spec] = (cls.from_cert(bytes(cert)), cls.from_cert(bytes(wrong)))
+    return _CERT_VER[spec]
+
+
 def base_cases(tier):
     """JSON-able base packet descriptions"""
     for kind in ('I', 'D'):
@@ -216,6 +237,16 @@ def check_cover(case):
         ok = run_coro(verifier_for(spec)(name, sig))
         if not ok:
             bad('genuine-rejected', 'the matching verifier rejects the genuine packet')
+        if spec in ('rsa', 'ecdsa', 'ed'):
+            good, wrong = verifier_from_cert(spec)
+            try:
+                if not run_coro(good(name, sig)):
+                    bad('genuine-rejected|verifier-from-certificate', 'the verifier built from the certificate of the signing key (issued by another key) '
+                                                                      'rejects the genuine packet')
+                if run_coro(wrong(name, sig)):
+                    bad('accepted-under-other-key|verifier-from-certificate', 'a verifier built from a certificate of a different key accepts the packet')
+            except Exception as e:  # noqa
+                bad(f'verifier-raises:{type(e).__name__}|verifier-from-certificate', repr(e))
     if kind == 'I' and ref['digest_cover'] is not None:
         rep = b''.join(bytes(x) for x in sig.digest_covered_part)
         if rep != ref['digest_cover']:
